@@ -2418,7 +2418,7 @@ add_user_headers (char *buf,
                                           hdr->header, hdr->header_size)) )
       {
         /* Reset filter flag if only one header is allowed */
-        filter_transf_enc =
+        filter_content_len =
           (0 == (r->flags & MHD_RF_INSANITY_HEADER_CONTENT_LENGTH));
         continue; /* Skip "Content-Length" header */
       }
